@@ -208,6 +208,26 @@ pub fn c01(opts: &Opts, out: &mut Out) {
             out.case(format!("honest {} rng={:?}", inst.describe(), kind));
         }
     }
+    // the whole cross product (bits, aggregation, degree) for small proofs, capacity alternating between m and 2m:
+    // honest run over the free module (verdicts, masks, same challenges), without the model tie
+    let mut ncross = 0usize;
+    let cross_lim = if opts.thorough { 256 } else { 64 };
+    for &n in &[1usize, 2, 4, 8, 16, 32, 64] {
+        for &m in &[1usize, 2, 4, 8, 16, 32] {
+            if n * m > cross_lim {
+                continue;
+            }
+            for t in 1..=6usize {
+                let cap = if (n.trailing_zeros() as usize + m.trailing_zeros() as usize + t) % 2 == 0 || m == 32 { m } else { 2 * m };
+                let inst = fmrun::random_inst(n, m, cap, t, n + m + t, m == 1 && t % 2 == 0, &mut rng);
+                let kind = RngKind::ChaCha(rng.next_u64());
+                honest_fm(out, "C01", &inst, &kind, false);
+                cfgs.insert((n, m, cap, t, 200, inst.seed.is_some(), "cross".to_string()));
+                ncross += 1;
+            }
+        }
+    }
+    out.stat("cross_product_points", ncross);
     // degenerate but valid witnesses: commitments that are the identity (value 0, zero mask), zero masks with
     // non-zero values, equal commitments in two positions, value == promise with a zero mask
     let mut ndeg = 0usize;
